@@ -1,6 +1,7 @@
 import Pymc.Proofs.PooledRun
 import Pymc.Proofs.PooledCallExamples
 import Pymc.Proofs.HashPooledCallExamples
+import Pymc.Proofs.HashPooledCallManyExamples
 /-!
 # C09 — sequential use of the connection pool by `PooledClient`
 
@@ -757,5 +758,149 @@ theorem C09_hashpooled_never_too_many (ccfg : Wire.Cfg) (pcfg : Pooled.Cfg) (fcf
   · cases h1
   · cases h1; exact hnot he
   · cases h1
+
+end HashPooledCall
+
+/-! ## `HashClient ∘ PooledClient ∘ Client`, multi-key operations: every pool of a `HashClient(use_pooling=True)` through `get_many` / `gets_many`, `set_many`, `delete_many`
+
+Model: `Pymc/Model/HashPooledCallMany.lean` — the multi-key code of `HashClient` (`Pymc/Model/HashInnerMany.lean`) around
+one `PooledClient` per server.  One public call sends one batch per server (`get_many` / `set_many`) or one `delete` per key
+(`delete_many`); every one of them is a `PooledCall.callP` (without `ignore_exc`) on the pool registered for that server at
+that moment: `client_pool.get()`, the inner `Client.call`, then `release` (it returned) or `destroy` (it raised —
+`after_remove = client.close()`).  The `with` block of the `PooledClient` method is left *before* the failover code sees
+the result, so whatever the public call does next — merge the result and go on, swallow the exception under `ignore_exc`
+and go on, let it escape and leave the remaining batches unsent, or (`_set_many` under `ignore_exc`, known finding
+`C13-setmany-ignoreexc`) pretend nothing failed — the pool has already been conserved: nothing stays checked out, the
+client of a failed call is closed and gone, the client of a call that returned is idle again. -/
+namespace HashPooledCall
+open Exchange Client Framing Failover HashInner
+
+variable {RK : Type}
+
+/-- C09 (`HashClient(use_pooling=True)` with multi-key calls, invariants of every pool).  After every call — returned or
+raised — of every history of single-key calls, `get_many` / `gets_many`, `set_many` and `delete_many` on a fresh pooling
+`HashClient`, whatever the connections do and whatever the failover code does, the pool of the `PooledClient` registered
+for every server satisfies the C09 invariants: its projection satisfies `Pooled.Inv`; in particular no inner client is
+checked out, at most one is idle, no connection is closed twice, every connection the pool ever opened is closed or
+held by the idle client; and the pool is coherent. -/
+theorem C09_hashpooled_many_pool_invariants (ccfg : Wire.Cfg) (pcfg : Pooled.Cfg) (fcfg : Failover.Cfg)
+    (route : List Srv → RK → Option Srv) (servers : List Srv) (t0 : Time) (calls : List (MPCall RK)) (n : Nat) :
+    ∀ p ∈ pools (runMP ccfg pcfg fcfg route (init pcfg servers t0) 0 (calls.take n)).1,
+      Pooled.Inv p.2.2.proj ∧ p.2.2.used = [] ∧ p.2.2.free.length ≤ 1 ∧ p.2.2.closed.Nodup ∧ PooledCall.Coh p.2.2 := by
+  intro p hp
+  obtain ⟨x, hx, hpx⟩ := mem_pools hp
+  rw [hpx]
+  obtain ⟨hcoh, hI⟩ := (runMP_poolsOK ccfg fcfg route (init pcfg servers t0) 0 (calls.take n) (poolsOK_init servers t0)).1 x hx
+  refine ⟨hI, PooledCall.used_nil_of_proj hI.used_nil, ?_, hI.closed_nodup, hcoh⟩
+  have hlen := PooledCall.free_length_proj (x.2.st : PooledCall.St)
+  rw [← hlen]; exact hI.free_le
+
+/-- C09 (`HashClient(use_pooling=True)` with multi-key calls, every contact conserves its pool).  In every history in
+which no single-key call is `quit` (not a `_run_cmd` operation), every pooled call `po` made during public call `i` — one
+per batch that reaches a server, one per `delete` of a `delete_many` — is the observation of one `PooledCall.callP`
+(without `ignore_exc`, tagged `i`) on a pool that satisfies the C09 invariants, and the pool it leaves satisfies them and
+is *conserved* (`PooledCall.Conserved`): nobody is checked out; if the `PooledClient` method raised, no client is idle —
+the inner client that served was destroyed —, it has no socket, and the connection its commands went out on is closed;
+if the method returned, the inner client that served is the idle client again, with the socket the call left it; if
+the pool could not hand out a client (`res = none`), none served. -/
+theorem C09_hashpooled_many_contact_conservation (ccfg : Wire.Cfg) (pcfg : Pooled.Cfg) (fcfg : Failover.Cfg)
+    (route : List Srv → RK → Option Srv) (servers : List Srv) (t0 : Time) (calls : List (MPCall RK))
+    (hnq : ∀ mc ∈ calls, NoQuit mc.op) :
+    ∀ (i : Nat) (ob : MPObs pcfg), (runMP ccfg pcfg fcfg route (init pcfg servers t0) 0 calls).2[i]? = some ob →
+      ∀ po ∈ pobsOf ob,
+        ∃ (p : PooledCall.St) (now fin : Nat) (call : Call) (sc : Script),
+          (Pooled.Inv p.proj ∧ PooledCall.Coh p) ∧
+          po = (PooledCall.callP ccfg pcfg false p i now fin call sc).2 ∧
+          (Pooled.Inv (PooledCall.callP ccfg pcfg false p i now fin call sc).1.proj ∧
+            PooledCall.Coh (PooledCall.callP ccfg pcfg false p i now fin call sc).1) ∧
+          PooledCall.Conserved (PooledCall.callP ccfg pcfg false p i now fin call sc).1 po := by
+  intro i ob hi po hpo
+  obtain ⟨p, now, fin, call, sc, hp, h1, hp', h2⟩ :=
+    runMP_contacts ccfg fcfg route (init pcfg servers t0) 0 calls (poolsOK_init servers t0) hnq i ob hi po hpo
+  rw [Nat.zero_add] at h1 hp' h2
+  exact ⟨p, now, fin, call, sc, ⟨hp.2, hp.1⟩, h1, ⟨hp'.2, hp'.1⟩, h2⟩
+
+/-- C09 (`HashClient(use_pooling=True)`, pool conservation after `get_many` / `gets_many` / `set_many`).  Let call `i` of
+any history be a `get_many` / `gets_many` / `set_many` (`batched`), `ob` its observation, and look at the state right after
+it (`calls.take (i + 1)`), whether it returned or raised.  For every batch `bo` that was sent (its `PooledClient` was
+invoked: `bo.inner = some po`), the `PooledClient` registered for the batch's server is still the one that was invoked
+(`bo.obj`), and its pool `p'` satisfies the C09 invariants and is conserved with respect to `po`: zero checked-out clients;
+if the pooled call raised, the inner client that served is closed and not in the idle list (the idle list is empty) and
+the connection it used is closed; if it returned, that client is the idle client again. -/
+theorem C09_hashpooled_many_pool_conservation (ccfg : Wire.Cfg) (pcfg : Pooled.Cfg) (fcfg : Failover.Cfg)
+    (route : List Srv → RK → Option Srv) (servers : List Srv) (t0 : Time) (calls : List (MPCall RK))
+    (i : Nat) (mc : MPCall RK) (ob : MPObs pcfg) (hmc : calls[i]? = some mc) (hb : batched mc.op = true)
+    (hob : (runMP ccfg pcfg fcfg route (init pcfg servers t0) 0 calls).2[i]? = some ob) :
+    ∀ bo ∈ ob.batches, ∀ po : PooledCall.PObs, bo.inner = some po →
+      ∃ (id : Nat) (p' : PooledCall.St), bo.obj = some id ∧
+        (bo.server, id, p') ∈ pools (runMP ccfg pcfg fcfg route (init pcfg servers t0) 0 (calls.take (i + 1))).1 ∧
+        (Pooled.Inv p'.proj ∧ PooledCall.Coh p') ∧ PooledCall.Conserved p' po := by
+  obtain ⟨h1, h2⟩ := runGM_split (I := pooled pcfg) ccfg fcfg route (init pcfg servers t0) 0 calls i mc hmc
+  have hob' : ob = (callMP ccfg pcfg fcfg route (runMP ccfg pcfg fcfg route (init pcfg servers t0) 0 (calls.take i)).1 (0 + i) mc).2 := by
+    have h : (runGM ccfg fcfg route (init pcfg servers t0) 0 calls).2[i]? = some ob := hob
+    rw [h2] at h
+    exact (Option.some.inj h).symm
+  have hst : (runMP ccfg pcfg fcfg route (init pcfg servers t0) 0 (calls.take (i + 1))).1 =
+      (callMP ccfg pcfg fcfg route (runMP ccfg pcfg fcfg route (init pcfg servers t0) 0 (calls.take i)).1 (0 + i) mc).1 := h1
+  have hinv := (runMP_poolsOK ccfg fcfg route (init pcfg servers t0) 0 (calls.take i) (poolsOK_init servers t0)).1
+  intro bo hbo po hpo
+  rw [hob'] at hbo
+  obtain ⟨id, p', h3, h4, h5, h6⟩ := callMP_final ccfg fcfg route _ (0 + i) mc hb hinv bo hbo po hpo
+  exact ⟨id, p', h3, by rw [hst]; exact h4, ⟨h5.2, h5.1⟩, h6⟩
+
+/-- non-vacuity of the three theorems above: `HashPooledCallExamples.idleCalls` (`max_pool_size=2, pool_idle_timeout=3,
+ignore_exc=False`; no `quit`): call 1, a `get_many` whose batch for server 0 raises, leaves pool 0 empty with connection 0
+closed and does not touch pool 1 (its batch is never sent); call 2, a `set_many` that returns, leaves in both pools the
+inner client that served idle on its new connection (pool 1 has closed the expired connection 0); call 3, a `delete_many`
+whose second `delete` raises after the first one returned its client, leaves pool 0 empty with connections 0 and 1 closed
+(per pool: server, `PooledClient`, idle clients as (id, connection, open, events left), closed connections, checked out;
+per batch: server, `PooledClient`, inner client, connection, served). -/
+example :
+    (∀ mc ∈ HashPooledCallExamples.idleCalls, NoQuit mc.op) ∧
+    HashPooledCallExamples.idleCalls.map (fun mc => batched mc.op) = [true, true, true, false] ∧
+    HashPooledCallExamples.manySummaryP (runMP {} HashPooledCallExamples.poolIdle HashCallExamples.cfgStrict prefRoute
+        (init HashPooledCallExamples.poolIdle [0, 1] 0) 0 HashPooledCallExamples.idleCalls) =
+      [(.value (.dict [(.bytes [107], [120])]), [⟨0, some 0, some 0, some 0, true⟩, ⟨1, some 1, some 0, some 0, true⟩]),
+       (.raised 0 (.inner (.sock 32)), [⟨0, some 0, some 0, some 0, false⟩]),
+       (.value (.keys []), [⟨0, some 0, some 1, some 1, true⟩, ⟨1, some 1, some 1, some 1, true⟩]),
+       (.raised 0 (.inner (.sock 32)), [⟨0, some 0, some 1, some 1, true⟩, ⟨0, some 0, some 1, some 1, false⟩])] ∧
+    HashPooledCallExamples.poolTraceM {} HashPooledCallExamples.poolIdle HashCallExamples.cfgStrict HashPooledCallExamples.idleCalls =
+      [[⟨0, 0, [], [], 0⟩, ⟨1, 1, [], [], 0⟩],
+       [⟨0, 0, [(0, some 0, true, 0)], [], 0⟩, ⟨1, 1, [(0, some 0, true, 0)], [], 0⟩],
+       [⟨0, 0, [], [0], 0⟩, ⟨1, 1, [(0, some 0, true, 0)], [], 0⟩],
+       [⟨0, 0, [(1, some 1, true, 0)], [0], 0⟩, ⟨1, 1, [(1, some 1, true, 0)], [0], 0⟩],
+       [⟨0, 0, [], [0, 1], 0⟩, ⟨1, 1, [(1, some 1, true, 0)], [0], 0⟩]] := by
+  refine ⟨?_, rfl, HashPooledCallExamples.demo_idle.1, HashPooledCallExamples.demo_idle.2.2.1⟩
+  intro mc h
+  simp only [HashPooledCallExamples.idleCalls, List.mem_cons, List.not_mem_nil, or_false] at h
+  rcases h with rfl | rfl | rfl | rfl <;> trivial
+
+/-- C09 (`HashClient(use_pooling=True)` with multi-key calls, the pools are never exhausted).  If `max_pool_size` allows
+even one client, then in every history every `PooledClient` invoked by a `get_many` / `gets_many` / `set_many` /
+`delete_many` (or a single-key call) is served by an inner client — `ObjectPool.get` never raises
+`RuntimeError("Too many objects")`, although one public call uses several pools and `delete_many` the same pool several
+times: every client is back or destroyed before the next one is asked for — and no public call ends with that exception. -/
+theorem C09_hashpooled_many_never_too_many (ccfg : Wire.Cfg) (pcfg : Pooled.Cfg) (fcfg : Failover.Cfg)
+    (route : List Srv → RK → Option Srv) (servers : List Srv) (t0 : Time) (calls : List (MPCall RK))
+    (hmax : pcfg.maxSize ≠ 0) :
+    ∀ ob ∈ (runMP ccfg pcfg fcfg route (init pcfg servers t0) 0 calls).2,
+      (∀ po ∈ pobsOf ob, po.res ≠ none) ∧ ∀ s, ob.res ≠ .raised s .tooManyObjects :=
+  fun ob hob =>
+    ⟨(runMP_poolsOK ccfg fcfg route (init pcfg servers t0) 0 calls (poolsOK_init servers t0)).2 hmax ob hob,
+     runMP_never_too_many ccfg fcfg route (init pcfg servers t0) 0 calls (poolsOK_init servers t0) hmax ob hob⟩
+
+/-- non-vacuity of `C09_hashpooled_many_never_too_many`: with `max_pool_size=1` the seven calls of
+`HashPooledCallExamples.setCalls` (two pools used by one `set_many`, the same pool used by consecutive `delete`s) are all
+served: per batch the inner client that served (`none` only where no pool was asked: the batch skipped inside the retry
+window) -/
+example :
+    HashPooledCallExamples.pool1.maxSize ≠ 0 ∧
+    (HashPooledCallExamples.manySummaryP (runMP {} HashPooledCallExamples.pool1 HashCallExamples.cfgStrict prefRoute
+        (init HashPooledCallExamples.pool1 [0, 1] 0) 0 HashPooledCallExamples.setCalls)).map (fun x => x.2.map (fun b => (b.pc, b.inner))) =
+      [[(some 0, some 0), (some 1, some 0)], [(some 0, some 0)], [(none, none), (some 1, some 0)], [(some 0, some 1)],
+       [(some 0, some 2)], [(some 1, some 0)], [(some 2, some 0), (some 1, some 0)]] := by
+  refine ⟨by decide, ?_⟩
+  rw [HashPooledCallExamples.demo_set_pooled.1]
+  rfl
 
 end HashPooledCall
